@@ -5,6 +5,7 @@ import (
 	"reflect"
 	"sort"
 
+	"github.com/go-kid/ioc/container/processors"
 	"github.com/go-kid/ioc/container/support"
 
 	"verif/internal/core"
@@ -35,7 +36,32 @@ type c07Case struct {
 	Optional bool        `json:"optional"`
 	Sibling  int         `json:"sibling"` // 0 none, 1 optional by-type before, 2 after, 3 optional absent by-name before
 	Desc     bool        `json:"descending_order,omitempty"`
+	// Wrap: a post-processor substitutes the component registered under the requested name after its
+	// initialisation: "other" = by a wrapper of an unrelated type, "i1" = by a wrapper implementing I1
+	Wrap string `json:"wrap,omitempty"`
 }
+
+// c07Sub substitutes the named component after initialisation.
+type c07Sub struct {
+	processors.DefaultComponentPostProcessor
+	target, mode string
+}
+
+func (p *c07Sub) Naming() string { return "zz-c07sub" }
+func (p *c07Sub) PostProcessAfterInitialization(c any, name string) (any, error) {
+	if name != p.target {
+		return c, nil
+	}
+	if p.mode == "i1" {
+		return &c07WI1{Inner: c}, nil
+	}
+	return &c07W{Inner: c}, nil
+}
+
+type c07W struct{ Inner any }
+type c07WI1 struct{ Inner any }
+
+func (*c07WI1) M1() {}
 
 var (
 	tPA  = reflect.TypeOf((*scen.TA)(nil))
@@ -81,8 +107,15 @@ func c07Gen(c *core.Ctx) func(yield func(c07Case) bool) {
 								if desc && len(pop) < 2 {
 									continue
 								}
-								if !yield(c07Case{pop, req, kind, opt, sib, desc}) {
+								if !yield(c07Case{pop, req, kind, opt, sib, desc, ""}) {
 									return
+								}
+								if sib == 0 && !desc && len(pop) <= 2 {
+									for _, w := range []string{"other", "i1"} {
+										if !yield(c07Case{pop, req, kind, opt, sib, desc, w}) {
+											return
+										}
+									}
 								}
 							}
 						}
@@ -136,6 +169,9 @@ func c07Run(c *core.Ctx) {
 			}
 		}
 		comps = append(comps, holder.Interface())
+		if cs.Wrap != "" {
+			comps = append(comps, &c07Sub{target: cs.Req, mode: cs.Wrap})
+		}
 		var base []string
 		if cs.Desc {
 			for k := range user {
@@ -143,12 +179,25 @@ func c07Run(c *core.Ctx) {
 			}
 			sort.Sort(sort.Reverse(sort.StringSlice(base)))
 		}
-		o := scen.Start(scen.StartSpec{Ch: envx.Fixed("", nil), Comps: comps, User: user, Base: base})
+		var published any
+		o := scen.Start(scen.StartSpec{Ch: envx.Fixed("", nil), Comps: comps, User: user, Base: base, After: func(o *scen.StartObs) {
+			if o.Err == nil && target != nil {
+				published, _ = o.App.GetComponentByName(cs.Req)
+			}
+		}})
 		c.S.Evaluations++
 		c.S.Programs++
 		c.S.States++
 		c.S.Transitions += int64(o.Trace.Calls)
 		satisfiable := target != nil && c07Assignable(targetTyp, cs.Kind)
+		if cs.Wrap != "" && target != nil {
+			// what is registered under the name is now the substitute
+			satisfiable = cs.Kind == "ANY" || (cs.Kind == "I1" && cs.Wrap == "i1")
+			targetTyp = "substitute(" + cs.Wrap + ") of " + targetTyp
+			if published != nil {
+				target = published
+			}
+		}
 		if !satisfiable || len(cs.Pop) >= 2 {
 			c.S.Nontrivial++
 		}
@@ -169,7 +218,7 @@ func c07Run(c *core.Ctx) {
 		case satisfiable:
 			c.Outcome(sig + "ok")
 			if got != target {
-				c.Report(key("wrong"), "wrong-component", fmt.Sprintf("by-name point `%s` holds %s, want exactly %s", tag, scen.IdOf(got), scen.IdOf(target)), cs)
+				c.Report(key("wrong"), "wrong-component", fmt.Sprintf("by-name point `%s` holds %T(%s), want exactly the component published under that name: %T(%s)", tag, got, scen.IdOf(got), target, scen.IdOf(target)), cs)
 			}
 		case !cs.Optional && o.Err == nil:
 			c.Outcome(sig + "missing-error")
@@ -181,7 +230,7 @@ func c07Run(c *core.Ctx) {
 			c.Report(key("optfail"), "optional-failed", fmt.Sprintf("optional by-name point `%s` (%s) made start-up fail: %s", tag, why, scen.FirstLine(o.Err)), cs)
 		default:
 			c.Outcome(sig + "untouched")
-			if scen.IdOf(got) != "-" {
+			if scen.IdOf(got) != "-" && got != nil {
 				c.Report(key("touched"), "optional-touched", fmt.Sprintf("optional by-name point `%s` (%s) was not left untouched: holds %s", tag, why, scen.IdOf(got)), cs)
 			}
 		}
